@@ -232,6 +232,18 @@ pub fn candidates(sink: &mut Sink, seed: u64, thorough: bool) {
     for k in 0..keep_random { let i = idx[keep_close + (k * 7919) % (idx.len() - keep_close)]; if !chosen.contains(&i) { chosen.push(i); } }
     chosen.sort();
     for i in chosen { let mut s = scored[i].1.clone(); s.tag = format!("{}:m{}", s.tag, scored[i].0.min(9)); specs.push(s); }
+    // uniform contents (one character repeated up to capacity): the highest penalties a symbol can reach, far above random payloads
+    let uni_versions: &[usize] = if thorough { &[5, 10, 20, 27, 33, 36, 39, 40] } else { &[10, 33, 40] };
+    for (i, &v) in uni_versions.iter().enumerate() {
+        for (j, (mode, ch)) in [(2usize, b't'), (2, b'!'), (2, 0x00u8), (0, b'7'), (1, b'A'), (2, b'~')].into_iter().enumerate() {
+            if !thorough && (i + j) % 2 == 1 { continue; }
+            let e = (i + j) % 4;
+            let cap = capacity(mode, e, v);
+            let lo = capacity(mode, e, v - 1) + 1;
+            let n = if j % 2 == 0 { cap } else { (lo + cap) / 2 };
+            specs.push(mk(vec![ch; n], Some(e), if j % 3 == 0 { None } else { Some(mode) }, None, None, format!("cand:uniform:{v}")));
+        }
+    }
     let mid = if thorough { 220 } else { 22 };
     for i in 0..mid {
         let v = 5 + i % 11;
